@@ -51,6 +51,7 @@ POSITIONS = {
 }
 X = "@x"
 XDEFS = {"undefined": None, "string": {"name": X, "pattern": "push"}, "list": {"name": X, "pattern": ["push"]}}
+SPELLINGS = ["@X1", "@8bit", "@Any-Width", "@x.y", "@_a"]   # undefined references in other spellings (upper case, digit first, ...)
 UNRELATED = [None, {"name": "@z", "pattern": "ret"}]   # an unrelated definition (keeps 'at least one definition supplied')
 
 
@@ -75,6 +76,12 @@ def all_cases(tier):
                             rf = [d for d, l in zip(ordered, loc) if l == 0]
                             ef = [d for d, l in zip(ordered, loc) if l == 1]
                             cases.append((pname, status, pat, rf, ef))
+    for sp in SPELLINGS:
+        for pname, mk in POSITIONS.items():
+            pattern, kdefs = mk(sp)
+            defs = list(kdefs) + [UNRELATED[1]]
+            for order in itertools.permutations(range(len(defs))):
+                cases.append((pname, "undefined", copy.deepcopy(pattern), [defs[i] for i in order], []))
     # macro definitions whose own name lacks '@'
     for bad in ("k", "x@k", " @k"):
         cases.append(("badname", "n/a", ["mov", "@z"], [{"name": bad, "pattern": "mov"}, {"name": "@z", "pattern": "ret"}], []))
@@ -117,7 +124,7 @@ def run_shard(shard, tier, h, res, known):
             res.nontrivial += 1
         res.count(f"{kind}")
         bad = judge(pname, kind, out)
-        if bad is None and kind == "raise" and status == "undefined" and pname != "badname" and "@x" not in out \
+        if bad is None and kind == "raise" and status == "undefined" and pname != "badname" and X in str(pat) and "@x" not in out \
                 and "AssertionError" not in out and "ValueError" in out:
             bad = ("error-does-not-name", "error message naming @x", out)
         if bad:
